@@ -379,6 +379,15 @@ func (s *Sim) sendBoundaryOp() string {
 		}{{"bt-1", bt - 1}, {"bt", bt}, {"bt+1", bt + 1}, {"bt+24h", bt + 86400}, {"bt+24h+1", bt + 86401}, {"client-time", ct}, {"client-time+1", ct + 1}}
 		o := opts[s.R.Intn(len(opts))]
 		tt, label = o.v, o.l
+	} else if s.R.Intn(3) == 0 {
+		// timeout heights of another revision: an earlier revision has passed whatever its height, a later one has not
+		if s.R.Bool() && vh.RevisionNumber > 0 {
+			th = clienttypes.NewHeight(vh.RevisionNumber-1, vh.RevisionHeight+uint64(1000+s.R.Intn(1000000)))
+			label = "earlier-revision-greater-height"
+		} else {
+			th = clienttypes.NewHeight(vh.RevisionNumber+1, 1+uint64(s.R.Intn(3)))
+			label = "later-revision-smaller-height"
+		}
 	} else if s.R.Bool() {
 		d := int64(s.R.Intn(3)) - 1
 		th = clienttypes.NewHeight(vh.RevisionNumber, uint64(int64(vh.RevisionHeight)+d))
